@@ -242,6 +242,21 @@ def words_of(o, tag):
     return w if len(w) == 16 else None
 
 
+def big(words):
+    """16 cpu_set_t words -> one hexadecimal Coq literal"""
+    v = 0
+    for k, w in enumerate(words):
+        v |= w << (64 * k)
+    return '0x%x' % v
+
+
+def str_term(s, w):
+    """(judge, term) for one string case: printable ASCII goes as a string literal"""
+    if all(32 <= c <= 126 for c in s):
+        return 'judge_parse_s', '("%s"%%string, %s)' % (bytes(s).decode('ascii').replace('"', '""'), big(w))
+    return 'judge_parse', '(%s, %s)' % (zl(s), big(w))
+
+
 def cmd_of(line):
     return "echo '%s' | build/harness/h_cpuset-*" % line
 
@@ -308,7 +323,7 @@ def run(ctx):
         if not ok:
             ctx.violation('harness failed on %s: %s' % (l, o), {'case': l, 'output': o, 'cmd': cmd_of(l)})
             continue
-        terms.append('(%s, (%s, %s))' % (ops_term(c), zl(res), zl(w)))
+        terms.append('(%s, (%s, %s))' % (ops_term(c), zl(res), big(w)))
         kept.append((c, l, o))
     for i, sh in enumerate(pf_common.shard(list(zip(terms, kept)), max(1, len(terms) // 1600))):
         jobs.append(('ops%d' % i, 'judge_ops', [t for t, _ in sh]))
@@ -345,7 +360,7 @@ def run(ctx):
         if p is None:
             ctx.violation('harness failed on %s: %s' % (l, o), {'case': l, 'output': o, 'cmd': cmd_of(l)})
             continue
-        terms.append('((%s, %s, %s), (%s, %s))' % (zll(c[0]), zll(c[1]), dv.zlit(c[2]), zll(p[0]), zll(p[1])))
+        terms.append('((%s, %s, %s), (%s, %s))' % (zll(c[0]), zll(c[1]), dv.zlit(c[2]), zll(p[0]), dv.coq_list([big(m) for m in p[1]])))
         kept.append((c, l, p))
     for i, sh in enumerate(pf_common.shard(list(zip(terms, kept)), max(1, len(terms) // 1000))):
         jobs.append(('grp%d' % i, 'judge_groups', [t for t, _ in sh]))
